@@ -34,11 +34,11 @@ def _scenario(draw, tier):
     n0 = draw(st.integers(3, 6))
     ops = []
     for _ in range(draw(st.integers(1, 4))):
-        k = draw(st.sampled_from(["propose_add", "propose_add", "add_random", "add_duplicate", "add_outlier", "propose"]))
+        k = draw(st.sampled_from(["propose_add", "propose_add", "add_random", "add_duplicate", "add_outlier", "propose", "decoy"]))
         ops.append([k, draw(st.integers(0, 2 ** 16))])
     return dict(
         d=d, n0=n0, seed=draw(st.integers(0, 2 ** 32 - 1)),
-        acq=draw(st.sampled_from(["EI", "EI", "UCB", "MaxVar"])),
+        acq=draw(st.sampled_from(["EI", "EI", "UCB", "MaxVar", "default"])),
         optimizer=draw(st.sampled_from(["bfgs", "bfgs", "diffev"])),
         y_err=draw(st.booleans()), n_processes=draw(st.sampled_from([1, 1, 2, 3])),
         x_form=draw(st.sampled_from(["2d", "2d", "1d", "list"])), bounds_form=draw(st.sampled_from(["tuples", "tuples", "ndarray", "lists"])),
@@ -205,8 +205,12 @@ def execute(sc):
         y_in = y0.copy()
         e_in = None if e0 is None else e0.copy()
         snaps = dict(x=_snap(x_in) if isinstance(x_in, np.ndarray) else [_snap(r) for r in x_in], y=_snap(y_in), e=_snap(e_in))
-        acq = dict(EI=ExpectedImprovement, UCB=UpperConfidenceBound, MaxVar=MaxVariance)[sc["acq"]]
-        acq = acq(kappa=sc["kappa"]) if sc["acq"] == "UCB" else acq
+        kw = {}
+        if sc["acq"] != "default":
+            acq = dict(EI=ExpectedImprovement, UCB=UpperConfidenceBound, MaxVar=MaxVariance)[sc["acq"]]
+            kw["acquisition"] = acq(kappa=sc["kappa"]) if sc["acq"] == "UCB" else acq
+        else:
+            sc = dict(sc, acq="EI")  # the documented default is expected improvement
         bf = sc.get("bounds_form", "tuples")
         if bf == "ndarray":
             b_in = np.array(bounds, dtype=float)
@@ -216,8 +220,8 @@ def execute(sc):
             b_in = list(bounds)
         b_snap = _snap(b_in) if isinstance(b_in, np.ndarray) else repr(b_in)
         try:
-            opt = lib_call("GpOptimiser()", GpOptimiser, x_in, y_in, bounds=b_in, y_err=e_in, acquisition=acq,
-                           optimizer=sc["optimizer"], n_processes=int(sc.get("n_processes", 1)))
+            opt = lib_call("GpOptimiser()", GpOptimiser, x_in, y_in, bounds=b_in, y_err=e_in,
+                           optimizer=sc["optimizer"], n_processes=int(sc.get("n_processes", 1)), **kw)
         except LibRaised as e:
             _viol(V, "op.raised", str(e))
             opt = None
@@ -257,6 +261,15 @@ def execute(sc):
                 if not np.array_equal(oe, np.array(me)):
                     _viol(V, "data.model", "%s: y_err of the optimiser is not the initial errors plus the added ones" % when)
                     return
+            ag = getattr(opt.acquisition, "gp", None)
+            if ag is not None and ag is not opt.gp:
+                try:
+                    same = np.array_equal(np.asarray(ag.y, dtype=float).reshape(-1), gy.reshape(-1))
+                except Exception:  # noqa
+                    same = False
+                if not same:
+                    _viol(V, "data.refit", "%s: the acquisition function is evaluating a regressor fitted to other data than this optimiser's" % when)
+                    return
             if inc != max(my):
                 _viol(V, "incumbent", "%s: the acquisition function's incumbent maximum is %r, the largest observed value is %r" % (when, inc, max(my)))
 
@@ -271,6 +284,22 @@ def execute(sc):
             og = np.random.Generator(np.random.PCG64([s, 5]))
             prop = None
             try:
+                if name == "decoy":
+                    # another optimiser (other data, other bounds) is built and updated in between: two
+                    # optimisers must not share any state
+                    dX = 50.0 + 10.0 * og.random((4, d))
+                    dy = np.array([float(np.sum(v)) for v in dX]) + 1000.0
+                    dkw = {} if "acquisition" not in kw else {"acquisition": type(opt.acquisition)}
+                    decoy = lib_call("GpOptimiser() [second optimiser]", GpOptimiser, dX, dy, bounds=[(50.0, 60.0)] * d,
+                                     optimizer="bfgs", **dkw)
+                    lib_call("add_evaluation [second optimiser]", decoy.add_evaluation, 50.0 + 10.0 * og.random(d), 5000.0)
+                    stats["fault_second_optimiser_interleaved"] += 1
+                    inputs_ok("after decoy")
+                    if not V:
+                        model_ok("after another optimiser was built and updated")
+                    if not V:
+                        spot_oracles(V, opt, sc, bounds, og, stats)
+                    continue
                 if name in ("propose", "propose_add"):
                     prop = lib_call("propose_evaluation", opt.propose_evaluation)
                     p = np.asarray(prop, dtype=float).reshape(-1)
